@@ -3,6 +3,7 @@
  * UBSan (shift, overflow, alignment), allocator / header balance, fate of forked children. */
 #define _GNU_SOURCE
 #include "ops.h"
+#include "rankgen.h"
 #include <sys/mman.h>
 #include <sanitizer/asan_interface.h>
 const char *prop_id = "C11";
@@ -154,8 +155,33 @@ static void mode_illdim(void) {
   }
 }
 
+/* block-recursive PLE (reached only with small cache sizes): every routine built on it, on shapes whose rows end exactly at the
+   end of the allocation (even word width), over the REC rank-profile family */
+static void rec_spec(const rk_spec *s, void *u) {
+  (void)u; char desc[160]; rk_str(s, desc, sizeof desc);
+  vx_group(); pm *A = NULL;
+  static const char *nm[] = {"mzd_ple", "mzd_pluq", "mzd_echelonize_pluq(full=1)", "mzd_echelonize_pluq(full=0)", "mzd_solve_left", "mzd_kernel_left_pluq", "mzd_echelonize"};
+  for (int v = 0; v < 7; v++) {
+    if (!vx_case_begin("%s|%s", nm[v], desc)) continue;
+    if (!A) A = rk_build(s);
+    mzd_t *M = mzd_from_pm(A);
+    switch (v) {
+    case 0: case 1: { mzp_t *P = mzp_init(M->nrows), *Q = mzp_init(M->ncols); if (v) mzd_pluq(M, P, Q, 0); else mzd_ple(M, P, Q, 0); mzp_free(P); mzp_free(Q); break; }
+    case 2: mzd_echelonize_pluq(M, 1); break;
+    case 3: mzd_echelonize_pluq(M, 0); break;
+    case 4: { int rows = M->nrows > M->ncols ? M->nrows : M->ncols; pm *b = pm_pat(rows, 64, (pat){P_PR, 0, 5}); mzd_t *B = mzd_from_pm(b); pm_free(b); (void)mzd_solve_left(M, B, 0, 1); mzd_free(B); break; }
+    case 5: { mzd_t *K = mzd_kernel_left_pluq(M, 0); if (K) mzd_free(K); break; }
+    case 6: mzd_echelonize(M, 1); break;
+    }
+    mzd_free(M);
+    vx_input(pm_hash(A) ^ ((uint64_t)v << 60), 1);
+    vx_case_end();
+  }
+  if (A) pm_free(A);
+}
+
 void prop_enumerate(void) {
   const char *mode = vx_arg("mode", "ops");
-  if (!strcmp(mode, "ops")) mode_ops(); else mode_illdim();
+  if (!strcmp(mode, "ops")) mode_ops(); else if (!strcmp(mode, "rec")) rk_enumerate(1 << F_REC, 0, 0, rec_spec, NULL); else mode_illdim();
 }
 int main(int argc, char **argv) { return vx_main(argc, argv); }
